@@ -145,6 +145,31 @@ pub fn replay(args: &[String]) {
                     }
                 }
             }
+            // the array is a function of (chain, draw, parameter): the same values in column-major storage and as a view with
+            // permuted axes (how a caller's array happens to lie in memory is not an input of the diagnostics)
+            if pool.is_none() && (v.name == "among-others" || v.name == "affine") {
+                use ndarray::ShapeBuilder;
+                let (cc, nn, pp) = arr.dim();
+                let mut col = Array3::<f32>::zeros((cc, nn, pp).f());
+                col.assign(&arr);
+                let perm = Array3::<f32>::from_shape_fn((pp, nn, cc), |(p, t, ci)| arr[(ci, t, p)]);
+                let perm = perm.permuted_axes([2, 1, 0]);
+                for (lname, view) in [("column-major", col.view()), ("permuted axes", perm.view())] {
+                    evals += 1;
+                    match catch(|| split_rhat_mean_ess(view)) {
+                        Err(e) => rhat_bad.push(json!({"case": brief(), "variant": format!("{vname} {lname}"), "panic": e})),
+                        Ok((rh3, es3)) => {
+                            let same = |x: f32, y: f32| x == y || (x - y).abs() <= 1e-5 * x.abs().max(1e-30) || (x.is_nan() && y.is_nan());
+                            if !(0..pp).all(|i| same(rh[i], rh3[i])) && rhat_bad.len() < 20 {
+                                rhat_bad.push(json!({"case": brief(), "variant": format!("{vname} {lname}"), "rhat_row_major": rh.to_vec(), "rhat_this_layout": rh3.to_vec()}));
+                            }
+                            if !(0..pp).all(|i| same(es[i], es3[i])) && ess_bad.len() < 20 {
+                                ess_bad.push(json!({"case": brief(), "variant": format!("{vname} {lname}"), "ess_row_major": es.to_vec(), "ess_this_layout": es3.to_vec()}));
+                            }
+                        }
+                    }
+                }
+            }
             // independence of the other parameters' values
             if v.p_total > 1 && pool.is_none() {
                 let arr2 = build(&a, v, 99);
